@@ -4,7 +4,7 @@
    binary.LittleEndian.Uint64(hash[:8]) as an input, are transcribed by gotrans on every run; the
    model's [is_aggregator], about which C14_is_aggregator_spec is proved, computes the same. *)
 From Coq Require Import ZArith NArith List.
-From Verif Require Import Lib.Base Lib.GoInt Gen.Pure_Extracted Model.C14_Subscriptions Proofs.GenTie2.
+From Verif Require Import Lib.Base Lib.GoInt Gen.Pure_C14 Model.C14_Subscriptions Proofs.TieLib Proofs.Tie_C14.
 
 Theorem C14_tie_is_aggregator : forall (len target : N) (hash : list N),
   is_aggregator len target hash =
